@@ -46,6 +46,16 @@ impl SimulationBoundary {
         }
     }
 
+    #[cfg(meshless_voro_verif)]
+    pub fn verif_iloc_raw(&self, loc: DVec3) -> DVec3 {
+        DVec3::splat(1.) + (loc - self.anchor) * self.inverse_width
+    }
+
+    #[cfg(meshless_voro_verif)]
+    pub fn verif_params(&self) -> (DVec3, DVec3) {
+        (self.anchor, self.inverse_width)
+    }
+
     pub fn iloc(&self, loc: DVec3) -> [i64; 3] {
         // Rescale the coordinates to fall within [1, 2):
         let loc = DVec3::splat(1.) + (loc - self.anchor) * self.inverse_width;
